@@ -142,7 +142,9 @@ class ScanOracles(LinOracles):
             return Opaque("P", {"pmer"}, {"at": i, "bases": tuple(range(i, i + self.p))})
         if tr == "Kmer" and name == "empty":
             return Opaque("P", {"pmer"}, {"at": None, "bases": None, "sentinel": True})
-        if tr == "Kmer" and name == "extend_right":
+        if (tr == "Kmer" and name == "extend_right") or getattr(it.facts, "helper_summary", {}).get(fn.get("rpath") or path) == "extend_right" \
+                or getattr(it.facts, "helper_summary", {}).get(path) == "extend_right":
+            # (a crate helper that the helper lemmas identified, for every k-mer type, with Kmer::extend_right is that operation)
             k = recv(it, args[0])
             b = [t for t in tags_of(args[1]) if t.startswith("b:")]
             bases = k.info.get("bases")
